@@ -71,11 +71,25 @@ def shared_label_do_inline_comment(src, ctx):
     return o.kind == "tree"
 
 
+def common_blank_invents_slashes(src, ctx):
+    """blank COMMON (`common a, b`) is printed as `COMMON // a, b`: two '/' tokens invented"""
+    t = src.strip()
+    return bool(re.match(r"^(\d+\s+)?common\s+[A-Za-z_]", t, re.I)) and "//" in ctx.get("printed", "")
+
+
+def common_drops_optional_comma(src, ctx):
+    """`common /b1/ a, b, /b2/ q`: the optional comma before the next block name is dropped"""
+    t = src.strip()
+    return bool(re.match(r"^(\d+\s+)?common\b", t, re.I)) and re.search(r",\s*/", t) is not None \
+        and re.search(r",\s*/", ctx.get("printed", "")) is None
+
+
 PREDICATES = {
     "C01": [shared_label_do_inline_comment],
     "C11": [shared_label_do_inline_comment],
     "C04": [shared_label_do_inline_comment],
     "C14": [],
+    "C02": [common_blank_invents_slashes, common_drops_optional_comma],
 }
 
 
